@@ -109,7 +109,7 @@ class PQ(PQData, Model):
                               q2z="Q constant impedance percentage",
                               )
         self.config.add_extra("_alt",
-                              pq2z="(0, 1)",
+                              pq2z=(0, 1),
                               p2p="float",
                               p2i="float",
                               p2z="float",
